@@ -199,7 +199,7 @@ def run(chk, tier, seed):
     cfgs = [("q_w2d1", dict(W=2, D=1, FW=2, FD=0, MaxFallback=2, Export="TRUE"), 600)]
     if tier == "thorough":
         cfgs += [("t_w3d1", dict(W=3, D=1, FW=1, FD=0, MaxFallback=3, Export="TRUE"), 1800),
-                 ("t_w2d2", dict(W=2, D=2, FW=2, FD=1, MaxFallback=1, Export="TRUE"), 3000)]
+                 ("t_w2d2", dict(W=2, D=2, FW=1, FD=0, MaxFallback=1, Export="TRUE"), 3000)]
     total = nontriv = 0
     for name, consts, to in cfgs:
         cases = tlc_cases(chk, name, consts, to)
